@@ -7,7 +7,7 @@
    documented in-place operations, whose inputs are chosen so that they must change);
    det and conc must be 1; no library call of the case may have panicked (a call that
    panics has compared nothing).
-   The comparator sees only FLAGS computed by the harness.  Routine ids 40..44 are the
+   The comparator sees only FLAGS computed by the harness.  Routine ids 40..45 are the
    harness's CANARIES (harness/c20canary.go): deliberately impure / history-dependent /
    schedule-dependent functions defined in the harness that go through the same pipeline;
    for them the comparator demands that they ARE flagged ([canary_expect]), so a harness that
@@ -43,6 +43,7 @@ Definition canary_expect (rid : Z) : option (list bool * option bool * option bo
   else if (rid =? 42)%Z then Some ([false], Some true, Some false, 0%Z)         (* result depends on another call being in flight *)
   else if (rid =? 43)%Z then Some ([false], Some true, Some true, 0%Z)          (* data race on a harness global: judged by the -race twin *)
   else if (rid =? 44)%Z then Some ([false], Some true, Some true, 1%Z)          (* always panics: the panic must be counted *)
+  else if (rid =? 45)%Z then Some ([false], Some false, None, 0%Z)              (* first call of a case differs from every later one: only the plain repeat sees it *)
   else None.
 
 Definition opt_ok (e : option bool) (b : bool) : bool := match e with None => true | Some x => Bool.eqb x b end.
